@@ -56,6 +56,7 @@ class LGen:
             self.tables.append({"schema": schema, "name": name, "cols": cols})
         text = "; ".join("CREATE TABLE %s (%s)" % ((t["schema"] + "." if t["schema"] else "") + t["name"],
                                                      ", ".join("%s %s" % (c, self.ch(["int", "varchar(20)", "bigint(20)"])) for c in t["cols"])) for t in self.tables)
+        self.all_tables = list(self.tables)
         plain = [t for t in self.tables if t["schema"] is None]
         if len(self.tables) >= 3 and plain and self.p(0.5):
             self.shadow = self.ch(plain)
@@ -336,8 +337,85 @@ def known_case(rng, risky=None):
     g = LGen(rng, risky, maxdepth=rng.choice([0, 1, 1, 2]))
     cat = g.catalogue()
     text, kind, want = g.statement()
+    text, style = anfam.recase(rng, text)          # keywords in lower / Capitalised / mixed case
+    g.tags.add("keywords:" + style)
     risky_used = sorted(t[6:] for t in g.tags if t.startswith("risky:"))
     return {"catalogue": cat, "text": text, "kind": kind, "want": want, "tags": sorted(g.tags), "risky": risky_used, "dialect": rng.choice(["MYSQL", "HIVE", "DEFAULT"])}
+
+
+def history_case(rng):
+    """2–4 statements over one catalogue, to be analysed one after the other on ONE analyzer, with deliberate name collisions
+    across the statements: one name N is a derived table's alias in one statement, a WITH table in another, and (when N is the name
+    of a catalogue table) a base table read directly in a third — in every order.  Each statement's flow is known for it alone."""
+    g = LGen(rng, None, maxdepth=1)
+    cat = g.catalogue()
+    full = lambda t: (t["schema"] + "." if t["schema"] else "") + t["name"]
+    plain = [t for t in g.all_tables if t["schema"] is None]
+    B = rng.choice(plain) if plain and rng.chance(0.65) else None
+    N = B["name"] if B else "v%d" % rng.below(100)
+    xcol = rng.choice(B["cols"]) if B else "x0"
+    others = [t for t in g.all_tables if t is not B] or g.all_tables
+
+    def src():
+        t = rng.choice(others)
+        return t, rng.choice(t["cols"])
+
+    def derived():
+        t, c = src()
+        return "SELECT %s.%s FROM (SELECT %s.%s AS %s FROM %s) %s" % (N, xcol, t["name"], c, xcol, full(t), N), [(xcol, frozenset([(t["schema"], t["name"], c)]))]
+
+    def with_():
+        t, c = src(); c2 = rng.choice(t["cols"])
+        if rng.chance(0.5):
+            return "WITH %s AS (SELECT %s AS %s FROM %s) SELECT %s.%s FROM %s" % (N, c, xcol, full(t), N, xcol, N), [(xcol, frozenset([(t["schema"], t["name"], c)]))]
+        return ("WITH %s AS (SELECT %s.%s + %s.%s AS %s FROM %s) SELECT %s AS o1 FROM %s" % (N, t["name"], c, t["name"], c2, xcol, full(t), xcol, N),
+                [("o1", frozenset([(t["schema"], t["name"], c), (t["schema"], t["name"], c2)]))])
+
+    def base():
+        if rng.chance(0.5):
+            return "SELECT %s.%s FROM %s" % (N, xcol, N), [(xcol, frozenset([(None, N, xcol)]))]
+        return "SELECT %s, %s AS o2 FROM %s" % (xcol, B["cols"][0], N), [(xcol, frozenset([(None, N, xcol)])), ("o2", frozenset([(None, N, B["cols"][0])]))]
+
+    def random_():
+        h = LGen(rng, None, maxdepth=1); h.tables = list(g.tables); h.all_tables = g.all_tables; h.shadow = g.shadow; h.k = 900 + rng.below(50) * 40
+        text, kind, want = h.statement()
+        return text, want, kind
+
+    roles = ["derived", "with"] + (["base"] if B else ["with"]) + ["random"]
+    roles = rng.shuffle(roles)[:2 + rng.below(3)]
+    if not ({"derived", "with", "base"} & set(roles[:-1])):
+        roles = ["derived"] + roles
+    steps = []
+    for role in roles:
+        r_ = {"derived": derived, "with": with_, "base": base, "random": random_}[role]()
+        text, want = r_[0], r_[1]
+        kind = r_[2] if len(r_) > 2 else "select"
+        text, _ = anfam.recase(rng, text)
+        steps.append({"text": text, "want": want, "kind": kind, "role": role})
+    return {"catalogue": cat, "steps": steps, "dialect": rng.choice(["MYSQL", "HIVE", "DEFAULT"]), "name": N, "name_is_base_table": B is not None}
+
+
+def req_seq(c):
+    return "AN lineage-seq %s %s %s" % (c["dialect"], E.enhex(c["catalogue"]), " ".join(E.enhex(st["text"]) for st in c["steps"]))
+
+
+def check_history(ctx, c, answer, how):
+    parts = answer.split(" ;; ")
+    if len(parts) != len(c["steps"]):
+        raise E.Infra("history answer with %d parts for %d statements: %s" % (len(parts), len(c["steps"]), answer[:200]))
+    for i, (st, a) in enumerate(zip(c["steps"], parts)):
+        outcome, empty = judge(st, a)
+        if outcome is None and not empty:
+            ctx.count("oracle:history:exact:" + st["role"])
+            continue
+        sig = "history:%s:%s" % (st["role"], outcome or EMPTY_SCHEMA)
+        ctx.count("oracle:" + sig)
+        alone = E.run_impl(["AN lineage %s %s %s" % (c["dialect"], E.enhex(c["catalogue"]), E.enhex(st["text"]))])[0]
+        pfam.report(ctx, sig, {"kind": "history", "entry": "one TableLineageAnalyzer, several statements", "dialect": c["dialect"], "catalogue": c["catalogue"],
+                               "history": [x["text"] for x in c["steps"]], "failing_statement": i, "input": st["text"], "stmt": st["kind"],
+                               "want": st["want"] if st["want"] == "ANALYZER" else [[w[0], sorted(map(list, w[1]), key=str) if w[1] is not None else None] for w in st["want"]],
+                               "observed": a[:900], "observed_alone": alone[:900], "how_found": how,
+                               "oracle": "c16: a statement analysed after others on the same analyzer must get the lineage it gets alone (its known data flow)"})
 
 
 # -- reading the implementation's answer ---------------------------------------------------------------------------
@@ -448,6 +526,9 @@ def run(ctx):
                        "`t.*`, UNION with qualified references, INSERT … SELECT with explicit column list (permuted), with the target's schema, and with an arity mismatch — judged on "
                        "output names, 1-based positions and the exact source set per output column; at most one construct of RISKY=%s per query, failures attributed to it. "
                        "distinct_nontrivial = distinct accepted answers" % RISKY)
+    ctx.cov["rule"] += (" (3) histories: sequences of 2–4 statements over one catalogue analysed on ONE TableLineageAnalyzer, one name being a derived alias in one statement, "
+                        "a WITH table in another and (when it names a catalogue table) a base table in a third, in every order, mixed with random clean statements; each answer "
+                        "must be the statement's own known flow; keywords of every generated text in upper / lower / Capitalised / mixed case.")
     ctx.cov["validated_only"] = ["agreement of the hand model with analyzer/data_linage/*.py, current_level_table_name_analyzer.py, current_level_sub_query.py (sampled)"]
     r = ctx.rng.fork("c16")
     cases = [known_case(r) for _ in range(n_clean)]
@@ -463,6 +544,13 @@ def run(ctx):
         for t in c["tags"]:
             ctx.count("shape:" + t)
         check_case(ctx, c, a, "dedicated generator")
+    # -- histories: several statements on one analyzer -----------------------------------------------------------------------
+    hist = [history_case(r) for _ in range(400 if ctx.quick else 12000)]
+    hres, _ = anfam.corr(ctx, [req_seq(c) for c in hist], stream="history")
+    for c, (_, a, _) in zip(hist, hres):
+        ctx.count("history:length-%d" % len(c["steps"]))
+        ctx.count("history:name-is-%s" % ("base-table" if c["name_is_base_table"] else "fresh"))
+        check_history(ctx, c, a, "histories")
     gen = [general_case(r) for _ in range(n_gen)]
     anfam.corr(ctx, [req(c) for c in gen], stream="general")
     for f in ctx.findings:
@@ -489,6 +577,15 @@ def search(ctx):
 
 
 def replay(payload):
+    if payload.get("kind") == "history":
+        texts, i = payload["history"], payload["failing_statement"]
+        a = E.run_impl(["AN lineage-seq %s %s %s" % (payload["dialect"], E.enhex(payload["catalogue"]), " ".join(E.enhex(t) for t in texts))])[0].split(" ;; ")
+        print("catalogue:", payload["catalogue"])
+        for k, t in enumerate(texts): print("statement %d%s: %r" % (k, " (judged)" if k == i else "", t))
+        print("expected :", str(payload["want"])[:800]); print("observed :", a[i][:800])
+        want = payload["want"] if payload["want"] == "ANALYZER" else [(w[0] if payload["stmt"] == "select" else tuple(w[0]), None if w[1] is None else frozenset(tuple(x) for x in w[1])) for w in payload["want"]]
+        outcome, empty = judge({"want": want, "kind": payload["stmt"]}, a[i])
+        return 0 if outcome is None and not empty else 1
     a = E.run_impl(["AN lineage %s %s %s" % (payload["dialect"], E.enhex(payload["catalogue"]), E.enhex(payload["input"]))])[0]
     print("catalogue:", payload["catalogue"]); print("query    :", repr(payload["input"])); print("expected :", str(payload["want"])[:800]); print("observed :", a[:800])
     want = payload["want"] if payload["want"] == "ANALYZER" else [(w[0] if payload["stmt"] == "select" else tuple(w[0]), None if w[1] is None else frozenset(tuple(x) for x in w[1])) for w in payload["want"]]
